@@ -37,7 +37,41 @@ type C18 struct {
 	dropReasons map[string]int
 	prevStatus  map[uint64]tsstypes.GroupStatus
 	firstPeriod uint64
+	availPrev   map[string]int // incoming-group members active in both modules at the end of the previous block -> queued nonces
 }
+
+// resetInBlock reports whether the block carries a nonce reset (which empties a queue in the middle of the block).
+func (m *C18) resetInBlock(blk *world.BlockRecord) bool {
+	for _, tx := range blk.Txs {
+		if tx.Intent.Tag == "reset_de" {
+			return true
+		}
+	}
+	return false
+}
+
+// snapshotAvail records, for the transition's incoming group, who could serve a signing at the end of this block.
+func (m *C18) snapshotAvail(e *Env, sh *TSSShadow) {
+	m.availPrev = nil
+	if m.tr == nil || m.tr.Status != "waiting_exec" {
+		return
+	}
+	g := sh.group(e, m.tr.Incoming)
+	if g == nil {
+		return
+	}
+	m.availPrev = map[string]int{}
+	for _, mem := range g.Members {
+		act, known := sh.TSSActive[m.tr.Incoming][mem.Address]
+		if !known {
+			act = mem.IsActive
+		}
+		if act && len(sh.Queues[mem.Address]) > 0 {
+			m.availPrev[mem.Address] = len(sh.Queues[mem.Address])
+		}
+	}
+}
+
 
 func (m *C18) Prop() string { return "C18" }
 
@@ -99,6 +133,30 @@ func (m *C18) OnBlock(e *Env, blk *world.BlockRecord) {
 			if statusBefore == "waiting_exec" {
 				m.nReqDuringWait++
 				e.St.Trace(fmt.Sprintf("req-during-wait(inc=%v)", incSid != 0))
+				// "additionally put to the incoming group (best effort)": the effort may fail only when the incoming group cannot
+				// serve. Counted as surely able to serve: members that were active with queued nonces when the block began and
+				// still have one left after every assignment of this block (blocks with nonce resets are not judged).
+				if incSid == 0 && curSid != 0 && m.availPrev != nil && !m.resetInBlock(blk) {
+					if g := sh.group(e, trBefore.Incoming); g != nil {
+						used := map[string]int{}
+						for _, a := range sh.J.Assigns {
+							for _, am := range a.Att.Members {
+								used[am.Addr]++
+							}
+						}
+						sure := 0
+						for _, mem := range g.Members {
+							if q, ok := m.availPrev[mem.Address]; ok && q-used[mem.Address] >= 1 {
+								sure++
+							}
+						}
+						if uint64(sure) >= g.Threshold && g.Threshold > 0 {
+							e.Fail("C18", "incoming_group_not_asked", "", "request by %s accepted while the transition to group %d awaits execution: only the current group was asked although %d members of the incoming group (threshold %d) were active with a queued nonce",
+								rq.Sender.Name, trBefore.Incoming, sure, g.Threshold)
+							return
+						}
+					}
+				}
 			}
 		}
 	}
@@ -293,6 +351,7 @@ func (m *C18) OnBlock(e *Env, blk *world.BlockRecord) {
 	for _, g := range tk.GetGroups(ctx) {
 		m.prevStatus[uint64(g.ID)] = g.Status
 	}
+	m.snapshotAvail(e, sh)
 	_ = sdk.Coins{}
 }
 
